@@ -16,6 +16,8 @@
 (*             full_b (bytes -> zero-copy path, byte-like element types only)                                 *)
 (*             short long long_nd (wrong fixed length / beyond capacity)                                      *)
 (*             long_b (bytes/str beyond capacity)  long_digits (the same, all ASCII digits)                    *)
+(*             full_s / long_s (utf8 fields: a str with non-ASCII characters whose UTF-8 BYTE count is within /    *)
+(*             beyond the capacity while its CHARACTER count is within it)                                        *)
 (*             eover (an element beyond the DECLARED range that fits the storage dtype: 8 in uint3[])          *)
 (*             ehuge (an element beyond the storage dtype: 256 or -1 in uint8[])                               *)
 (*             ewtype (element of a foreign type) ewclass (composite element of another class)                 *)
@@ -57,7 +59,7 @@ Cands(k) ==
       [] k = "comp"  -> {"ok", "wclass", "wtype", "none"}
       [] k = "farr"  -> {"ok", "ok_nd", "short", "long", "long_nd", "eover", "ehuge", "ewtype", "wtype", "none"}
       [] k = "varr"  -> {"empty", "full", "full_nd", "long", "long_nd", "eover", "ehuge", "ewtype", "wtype", "none"}
-      [] k = "barr"  -> {"empty", "full", "full_b", "long", "long_b", "long_digits", "eover", "ehuge", "wtype", "none"}
+      [] k = "barr"  -> {"empty", "full", "full_b", "full_s", "long", "long_b", "long_s", "long_digits", "eover", "ehuge", "wtype", "none"}
       [] k = "carr"  -> {"ok", "long", "ewclass", "wtype", "none"}
 
 AllCands == UNION {Cands(Kinds[g]) : g \in F}
@@ -66,8 +68,8 @@ FirstValid(k) == IF k \in {"int", "float", "bool"} THEN "max" ELSE IF k \in {"co
 
 (* ------------------------------------------------------------------------------------------------------ *)
 (* P-layer                                                                                                  *)
-ValidCands  == {"min", "max", "inf", "nan", "ok", "ok_nd", "empty", "full", "full_nd", "full_b"}
-RangeCands  == {"below", "above", "short", "long", "long_nd", "long_b", "long_digits"}
+ValidCands  == {"min", "max", "inf", "nan", "ok", "ok_nd", "empty", "full", "full_nd", "full_b", "full_s"}
+RangeCands  == {"below", "above", "short", "long", "long_nd", "long_b", "long_s", "long_digits"}
 AmbCands    == {"eover", "ehuge", "ewclass"}
 
 IsArr(k) == k \in {"farr", "varr", "barr", "carr"}
@@ -116,12 +118,12 @@ ISet(k, c) ==
     ELSE IF k = "bool" THEN {"stored"}       \* self._f = bool(x)
     ELSE IF k = "comp" THEN (IF c = "ok" THEN {"stored"} ELSE {"verr"})     \* isinstance test
     ELSE                                      \* assign_array
-        IF c = "full_b" THEN {"stored"}                                     \* bytes and len OK: frombuffer
+        IF c \in {"full_b", "full_s"} THEN {"stored"}                       \* (str is encoded first) bytes and len OK: frombuffer
         ELSE IF c \in {"ok_nd", "full_nd"} THEN {"stored"}                  \* ndarray, dtype, ndim, size OK: bind
         ELSE                                                                \* np.array(x, dtype).flatten(), then size test
             IF c \in {"ok", "empty", "full", "eover", "ewclass"} THEN {"stored"}
             ELSE IF c \in {"short", "long", "long_nd"} THEN {"verr"}
-            ELSE IF c = "long_b" THEN {"verr"}                              \* int(b'ab..') : ValueError from the parser
+            ELSE IF c \in {"long_b", "long_s"} THEN {"verr"}                \* bytes beyond capacity (counted AFTER encoding a str)
             ELSE IF c = "long_digits" THEN (IF ParseDigits THEN {"stored"} ELSE {"verr"})
             ELSE IF c = "ehuge" THEN {"rej"}                                \* OverflowError (NumPy 2)
             ELSE {"stored", "verr", "rej"}                                  \* ewtype wtype none
@@ -133,7 +135,7 @@ KwSet == {kw \in [F -> AllCands \cup {"absent"}] : KwOK(kw)}
 (* one representative per class for the middle of a history                                                  *)
 MidCands(k) ==
     LET cs == Cands(k) IN
-    {FirstValid(k), "wtype"} \cup (cs \cap {"above", "long", "wclass", "eover", "ewclass", "long_digits", "min", "empty"})
+    {FirstValid(k), "wtype"} \cup (cs \cap {"above", "long", "wclass", "eover", "ewclass", "long_digits", "long_s", "min", "empty"})
 
 Idle == [op |-> "idle"]
 
